@@ -1,12 +1,16 @@
 /-
-C06 (no_fault): the header-folding path of qremote/qrdata.c — wrap_line(), send_wrapped(),
-wrap_header() — never reads outside the view it was given and never writes outside its staging
-buffer, for every input; and the MIME helpers of qremote/mime.c never do for a header field that
-ends in CR or LF (which is what getfieldlen() hands out).
+C06 (no_fault): no outcome of the model of qremote/qrdata.c + mime.c is a memory fault
+(`sendData_nf`).  The header-folding path — wrap_line(), send_wrapped(), wrap_header() — never reads
+outside the view it was given and never writes outside its staging buffer, for every input
+(`wrapHeader_ok`); the header scan of qp_header() delimits fields that lie inside the data, end in
+CR or LF and lie in front of the end of the header it finds (`hdrScan_inv`, through `Reach`/`TailOk`);
+Lemmas/MimeNoFault.lean shows that the MIME helpers stay inside such a field; qp_header(), the part
+loop and send_qp() compose these (`qpHeader_nf`, `partLoop_nf`, `sendQp_nf`).
 -/
 import QsmtpModel.QrData
 import QsmtpModel.Lemmas.QrPlain
 import QsmtpModel.Lemmas.QrQp
+import QsmtpModel.Lemmas.MimeNoFault
 
 namespace QsmtpModel.QrData
 open QsmtpModel QsmtpModel.Mime
@@ -187,5 +191,484 @@ theorem wrapHeader_ok (buf : List Byte) (st : St) : ∃ st', wrapHeader buf st =
   · obtain ⟨st', h', _⟩ := sendPlain_spec buf st
     exact ⟨st', h'⟩
   · exact wrapHeaderGo_ok buf 0 0 0 st (by omega)
+
+/-! ### the header scan of qp_header() -/
+
+/-- from offset `off` the scan cannot find the end of the header in front of `E` -/
+def Reach (buf : List Byte) (off E : Nat) : Prop :=
+  E ≤ off ∨
+  (off + 1 = E ∧ ∃ x, buf[off]? = some x ∧ (x = CR ∨ x = LF) ∧ ¬(x = CR ∧ buf[off + 1]? = some LF)) ∨
+  (off + 2 = E ∧ ((buf[off]? = some CR ∧ buf[off + 1]? = some LF) ∨
+    (∃ x, buf[off]? = some x ∧ x ≠ CR ∧ x ≠ LF ∧ ∃ y, buf[off + 1]? = some y ∧ (y = CR ∨ y = LF) ∧
+      ¬(y = CR ∧ buf[off + 2]? = some LF))))
+
+theorem reach_of_tail (buf : List Byte) (E : Nat) (h : TailOk buf E (buf.length - E)) :
+    Reach buf (E - 2) E := by
+  obtain ⟨h2, h | ⟨⟨h1, x, hx1, hx2, hx3⟩, h⟩⟩ := h
+  · exact Or.inr (Or.inr ⟨by omega, Or.inl ⟨h.1, by rw [show E - 2 + 1 = E - 1 by omega]; exact h.2⟩⟩)
+  · refine Or.inr (Or.inr ⟨by omega, Or.inr ⟨x, by rw [show E - 2 = E - 1 - 1 by omega]; exact hx1, hx2, hx3, ?_⟩⟩)
+    rw [show E - 2 + 1 = E - 1 by omega, show E - 2 + 2 = E by omega]
+    rcases h with h | ⟨h, h'⟩
+    · exact ⟨LF, h, Or.inr rfl, by intro hh; exact absurd hh.1 (by decide)⟩
+    · refine ⟨CR, h, Or.inl rfl, ?_⟩
+      intro hh
+      rcases h' with h' | h'
+      · have : buf[E]? = none := List.getElem?_eq_none_iff.mpr (by omega)
+        rw [this] at hh; cases hh.2
+      · exact h' hh.2
+
+theorem reach_cr (buf : List Byte) (off E : Nat) (h : Reach buf off E) (hc : buf[off]? = some CR) :
+    E ≤ (if buf[off + 1]? = some LF then off + 2 else off + 1) := by
+  rcases h with h | ⟨h, x, hx, _, hn⟩ | ⟨h, h' | ⟨x, hx, hx1, _⟩⟩
+  · split <;> omega
+  · rw [hc] at hx; cases hx
+    split
+    · rename_i hl; exact absurd ⟨rfl, hl⟩ hn
+    · omega
+  · rw [if_pos h'.2]; omega
+  · rw [hc] at hx; cases hx; exact absurd rfl hx1
+
+theorem reach_lf (buf : List Byte) (off E : Nat) (h : Reach buf off E) (hc : buf[off]? = some LF) :
+    E ≤ off + 1 := by
+  rcases h with h | ⟨h, _⟩ | ⟨h, h' | ⟨x, hx, _, hx2, _⟩⟩
+  · omega
+  · omega
+  · rw [hc] at h'; cases h'.1
+  · rw [hc] at hx; cases hx; exact absurd rfl hx2
+
+theorem lineRest_eol (l : List Byte) (y : Byte) (h : l[0]? = some y) (hy : y = CR ∨ y = LF) : lineRest l = 0 := by
+  cases l with
+  | nil => rfl
+  | cons c cs =>
+    simp at h; subst h
+    unfold lineRest
+    have : isEol c = true := by rcases hy with rfl | rfl <;> decide
+    simp [this]
+
+theorem reach_dflt (buf : List Byte) (off E : Nat) (c : Byte) (h : Reach buf off E) (hc : buf[off]? = some c)
+    (h1 : c ≠ CR) (h2 : c ≠ LF) : Reach buf (off + 1 + lineRest (buf.drop (off + 1))) E := by
+  rcases h with h | ⟨h, x, hx, hx1, _⟩ | ⟨h, h' | ⟨x, hx, _, _, y, hy, hy1, hy2⟩⟩
+  · exact Or.inl (by omega)
+  · rw [hc] at hx; cases hx; rcases hx1 with rfl | rfl <;> contradiction
+  · rw [hc] at h'; cases h'.1; exact absurd rfl h1
+  · have : lineRest (buf.drop (off + 1)) = 0 := lineRest_eol _ y (by simpa using hy) hy1
+    rw [this]
+    exact Or.inr (Or.inl ⟨by omega, y, hy, hy1, hy2⟩)
+
+/-- a matched field name at `off` is not where the previous field ends -/
+theorem reach_match (buf : List Byte) (off E n : Nat) (c x : Byte) (h : Reach buf off E) (hc : buf[off]? = some c)
+    (h1 : c ≠ CR) (h2 : c ≠ LF) (hx : buf[off + 1]? = some x) (hx1 : x ≠ CR) (hx2 : x ≠ LF) (hn : 2 ≤ n) :
+    Reach buf (off + n - 2) E := by
+  rcases h with h | ⟨h, y, hy, hy1, _⟩ | ⟨h, h' | ⟨_, _, _, _, y, hy, hy1, _⟩⟩
+  · exact Or.inl (by omega)
+  · rw [hc] at hy; cases hy; rcases hy1 with rfl | rfl <;> contradiction
+  · rw [hc] at h'; cases h'.1; exact absurd rfl h1
+  · rw [hx] at hy; cases hy; rcases hy1 with rfl | rfl <;> contradiction
+
+theorem ct_lit_no_eol : ∀ l ∈ Gen.hdrContentType, lower CR ≠ lower l ∧ lower LF ≠ lower l := by decide
+theorem ce_lit_no_eol : ∀ l ∈ Gen.hdrContentTrEnc, lower CR ≠ lower l ∧ lower LF ≠ lower l := by decide
+
+/-- a field whose name was matched behind its first letter: getfieldlen() stays inside the data, and
+a non-zero length covers the name and ends as `TailOk` says -/
+theorem matched_field (buf : List Byte) (off : Nat) (c : Byte) (lit : List Byte)
+    (hc : buf[off]? = some c) (h1 : c ≠ CR) (h2 : c ≠ LF)
+    (hlit : ∀ l ∈ lit, lower CR ≠ lower l ∧ lower LF ≠ lower l)
+    (hrest : buf.length - off > lit.length) (hm : caseEq buf (off + 1) lit = .ok true) :
+    ∃ n, getFieldLen buf off (buf.length - off) = .ok n ∧ n ≤ buf.length - off ∧
+      (n ≠ 0 → lit.length + 1 ≤ n ∧ (buf[off + n - 1]? = some CR ∨ buf[off + n - 1]? = some LF) ∧
+        TailOk buf (off + n) (buf.length - (off + n))) ∧
+      (∀ j (_ : j < lit.length), ∃ x, buf[off + 1 + j]? = some x ∧ x ≠ CR ∧ x ≠ LF) := by
+  have hbytes : ∀ j (hj : j < lit.length), ∃ x, buf[off + 1 + j]? = some x ∧ x ≠ CR ∧ x ≠ LF := by
+    intro j hj
+    obtain ⟨x, hx1, hx2⟩ := caseEq_true buf lit (off + 1) hm j hj
+    have := hlit lit[j] (List.getElem_mem _)
+    refine ⟨x, hx1, ?_, ?_⟩
+    · intro h; subst h; exact this.1 hx2
+    · intro h; subst h; exact this.2 hx2
+  have hb : ∀ j, j < lit.length + 1 → ∃ x, buf[off + j]? = some x ∧ x ≠ CR ∧ x ≠ LF := by
+    intro j hj
+    cases j with
+    | zero => exact ⟨c, hc, h1, h2⟩
+    | succ j =>
+      obtain ⟨x, hx⟩ := hbytes j (by omega)
+      exact ⟨x, by rw [show off + (j + 1) = off + 1 + j by omega]; exact hx.1, hx.2⟩
+  obtain ⟨n, hn1, hn2, hn3⟩ := getFieldLen_ok buf off (buf.length - off) (lit.length + 1) (by omega) (by omega)
+    (by omega) hb
+  refine ⟨n, hn1, hn2, fun hn0 => ?_, hbytes⟩
+  obtain ⟨hk, he⟩ := hn3 hn0
+  refine ⟨hk, he, ?_⟩
+  have := getFieldLen_tail buf off (buf.length - off) n (by omega) (by omega) ⟨c, hc, h1, h2⟩ hn1 hn0
+  rw [show buf.length - (off + n) = buf.length - off - n by omega]
+  exact this
+
+/-- a delimited field: inside the data, at least as long as `Content-Type:`, ending in CR or LF -/
+def FieldOk (buf : List Byte) (S L : Nat) : Prop :=
+  S + L ≤ buf.length ∧ 13 ≤ L ∧ (buf[S + L - 1]? = some CR ∨ buf[S + L - 1]? = some LF)
+
+structure HInv (buf : List Byte) (off : Nat) (s : HdrScan) : Prop where
+  ce : s.ceL = 0 ∨ (s.ceS + s.ceL ≤ buf.length ∧ Reach buf off (s.ceS + s.ceL))
+  ct : s.ctL = 0 ∨ FieldOk buf s.ctS s.ctL
+
+structure HRes (buf : List Byte) (s : HdrScan) : Prop where
+  ce : s.ceL = 0 ∨ s.ceS + s.ceL ≤ (if s.header = 0 then buf.length else s.header)
+  ct : s.ctL = 0 ∨ FieldOk buf s.ctS s.ctL
+  hd : s.header ≤ buf.length
+
+theorem lower_o_ne' (x : Byte) (h : lower x = lower 111) : x ≠ CR ∧ x ≠ LF := by
+  constructor <;> (intro e; subst e; revert h; decide)
+
+/-- the header scan never faults; the `Content-Transfer-Encoding:` field it found lies in front of
+the end of the header it found, the `Content-Type:` field is one is_multipart() can take -/
+theorem hdrScan_inv (buf : List Byte) (off : Nat) (s : HdrScan) (hi : HInv buf off s) (h0 : s.header = 0) :
+    ∃ s', hdrScan buf off s = .ok s' ∧ HRes buf s' := by
+  fun_induction hdrScan buf off s
+  case case1 off s hn =>
+    refine ⟨_, rfl, ⟨?_, hi.ct, by rw [h0]; omega⟩⟩
+    rcases hi.ce with h | h
+    · exact Or.inl h
+    · right; rw [h0]; simpa using h.1
+  case case2 off s off1 he hc =>
+    have hlt : off1 < buf.length := by
+      cases hg : buf[off1]? with
+      | none => rw [hg] at he; cases he
+      | some y => exact (List.getElem?_eq_some_iff.mp hg).1
+    refine ⟨_, rfl, ⟨?_, hi.ct, Nat.le_of_lt hlt⟩⟩
+    rcases hi.ce with h | h
+    · exact Or.inl h
+    · right
+      have := reach_cr buf off _ h.2 hc
+      have h1 : off1 ≠ 0 := by simp only [off1]; split <;> omega
+      simp only [h1, if_false]
+      simp only [off1]
+      split at this <;> rename_i hh <;> simp only [hh] <;> exact this
+  case case3 off s off1 he hc ih =>
+    apply ih _ h0
+    refine ⟨?_, hi.ct⟩
+    rcases hi.ce with h | h
+    · exact Or.inl h
+    · right
+      refine ⟨h.1, Or.inl ?_⟩
+      have := reach_cr buf off _ h.2 hc
+      simp only [off1]
+      split at this <;> rename_i hh <;> simp only [hh] <;> exact this
+  case case4 off s he hc _ =>
+    have hlt : off + 1 < buf.length := by
+      cases hg : buf[off + 1]? with
+      | none => rw [hg] at he; cases he
+      | some y => exact (List.getElem?_eq_some_iff.mp hg).1
+    refine ⟨_, rfl, ⟨?_, hi.ct, Nat.le_of_lt hlt⟩⟩
+    rcases hi.ce with h | h
+    · exact Or.inl h
+    · right
+      have := reach_lf buf off _ h.2 hc
+      simpa using this
+  case case5 off s he hc _ ih =>
+    apply ih _ h0
+    refine ⟨?_, hi.ct⟩
+    rcases hi.ce with h | h
+    · exact Or.inl h
+    · exact Or.inr ⟨h.1, Or.inl (reach_lf buf off _ h.2 hc)⟩
+  case case6 off s c hc h1 h2 hcc rest e hx =>
+    exfalso
+    split at hx
+    · rename_i hr
+      obtain ⟨b, hb⟩ := caseEq_ok_len buf Gen.hdrContentType (off + 1) (by simp only [rest] at hr; omega)
+      rw [hb] at hx; cases hx
+    · cases hx
+  case case7 off s c hc h1 h2 hcc rest hm e hg =>
+    exfalso
+    split at hm
+    · rename_i hr
+      obtain ⟨n, hn, _⟩ := matched_field buf off c _ hc h1 h2 ct_lit_no_eol hr hm
+      rw [hn] at hg; cases hg
+    · cases hm
+  case case8 off s c hc dflt h1 h2 hcc rest hm hg ih =>
+    apply ih _ h0
+    refine ⟨?_, hi.ct⟩
+    rcases hi.ce with h | h
+    · exact Or.inl h
+    · exact Or.inr ⟨h.1, reach_dflt buf off _ c h.2 hc h1 h2⟩
+  case case9 off s c hc h1 h2 hcc rest hm n hg hn0 hn2 =>
+    exfalso
+    split at hm
+    · rename_i hr
+      obtain ⟨n', hn', _, hn3, _⟩ := matched_field buf off c _ hc h1 h2 ct_lit_no_eol hr hm
+      rw [hn'] at hg; cases hg
+      have := (hn3 hn0).1
+      have : Gen.hdrContentType.length = 12 := rfl
+      omega
+    · cases hm
+  case case10 off s c hc h1 h2 hcc rest hm n hg hn0 hn2 ih =>
+    split at hm
+    · rename_i hr
+      obtain ⟨n', hn', hle, hn3, hby⟩ := matched_field buf off c _ hc h1 h2 ct_lit_no_eol hr hm
+      rw [hn'] at hg; cases hg
+      obtain ⟨hk, he, _⟩ := hn3 hn0
+      have h12 : Gen.hdrContentType.length = 12 := rfl
+      apply ih _ h0
+      refine ⟨?_, Or.inr (show FieldOk buf off n from ⟨by omega, by omega, he⟩)⟩
+      rcases hi.ce with h | h
+      · exact Or.inl h
+      · obtain ⟨x, hx, hx1, hx2⟩ := hby 0 (by omega)
+        exact Or.inr ⟨h.1, reach_match buf off _ n c x h.2 hc h1 h2 (by simpa using hx) hx1 hx2 (by omega)⟩
+    · cases hm
+  case case11 off s c hc h1 h2 hcc rest hm e hx =>
+    exfalso
+    split at hx
+    · rename_i hr
+      obtain ⟨b, hb⟩ := caseEq_ok_len buf Gen.hdrContentTrEnc (off + 1) (by simp only [rest] at hr; omega)
+      rw [hb] at hx; cases hx
+    · cases hx
+  case case12 off s c hc h1 h2 hcc rest hm0 hm e hg =>
+    exfalso
+    split at hm
+    · rename_i hr
+      obtain ⟨n, hn, _⟩ := matched_field buf off c _ hc h1 h2 ce_lit_no_eol hr hm
+      rw [hn] at hg; cases hg
+    · cases hm
+  case case13 off s c hc dflt h1 h2 hcc rest hm0 hm hg ih =>
+    apply ih _ h0
+    refine ⟨?_, hi.ct⟩
+    rcases hi.ce with h | h
+    · exact Or.inl h
+    · exact Or.inr ⟨h.1, reach_dflt buf off _ c h.2 hc h1 h2⟩
+  case case14 off s c hc h1 h2 hcc rest hm0 hm n hg hn0 hn2 =>
+    exfalso
+    split at hm
+    · rename_i hr
+      obtain ⟨n', hn', _, hn3, _⟩ := matched_field buf off c _ hc h1 h2 ce_lit_no_eol hr hm
+      rw [hn'] at hg; cases hg
+      have := (hn3 hn0).1
+      have : Gen.hdrContentTrEnc.length = 25 := rfl
+      omega
+    · cases hm
+  case case15 off s c hc h1 h2 hcc rest hm0 hm n hg hn0 hn2 ih =>
+    split at hm
+    · rename_i hr
+      obtain ⟨n', hn', hle, hn3, hby⟩ := matched_field buf off c _ hc h1 h2 ce_lit_no_eol hr hm
+      rw [hn'] at hg; cases hg
+      obtain ⟨hk, he, htl⟩ := hn3 hn0
+      apply ih _ h0
+      refine ⟨Or.inr ⟨by simp only [rest] at *; omega, ?_⟩, hi.ct⟩
+      have := reach_of_tail buf (off + n) htl
+      rw [show off + n - 2 = off + n - 2 from rfl] at this
+      exact this
+    · cases hm
+  case case16 off s c hc dflt h1 h2 hcc rest hm0 hm ih =>
+    apply ih _ h0
+    refine ⟨?_, hi.ct⟩
+    rcases hi.ce with h | h
+    · exact Or.inl h
+    · exact Or.inr ⟨h.1, reach_dflt buf off _ c h.2 hc h1 h2⟩
+  case case17 off s c hc dflt h1 h2 hcc ih =>
+    apply ih _ h0
+    refine ⟨?_, hi.ct⟩
+    rcases hi.ce with h | h
+    · exact Or.inl h
+    · exact Or.inr ⟨h.1, reach_dflt buf off _ c h.2 hc h1 h2⟩
+
+
+/-! ### qp_header -/
+
+theorem NF_throw_bind {α β : Type} (e : Stop) (f : α → R β) (he : ∀ g, e ≠ .fault g) :
+    NF ((throw e : R α) >>= f) := by
+  intro g h
+  simp only [bind, Except.bind, throw, throwThe, MonadExceptOf.throw] at h
+  cases h
+  exact he g rfl
+
+theorem NF_pure_bind {α β : Type} (a : α) (f : α → R β) (h : NF (f a)) : NF ((pure a : R α) >>= f) := h
+
+theorem NF_ok_bind {α β : Type} {x : R α} {f : α → R β} (a : α) (hx : x = .ok a) (h : NF (f a)) : NF (x >>= f) := by
+  subst hx; exact h
+
+theorem NF_cpy {buf : List Byte} {a n : Nat} (h : a + n ≤ buf.length) : NF (cpy buf a n) :=
+  NF_of_ok ⟨_, cpy_ok h⟩
+
+theorem NF_pure {α : Type} (a : α) : NF (pure a : R α) := NF_ok a
+theorem NF_throw_abort {α : Type} (c : Nat) (o : List Byte) : NF (throw (Stop.abort c o) : R α) := NF_abort c o
+
+macro "nf_step" : tactic => `(tactic| first
+  | with_reducible exact NF_pure _
+  | with_reducible exact NF_ok _
+  | with_reducible exact NF_throw_abort _ _
+  | with_reducible exact NF_abort _ _
+  | with_reducible exact NF_of_ok (wrapHeader_ok _ _)
+  | (with_reducible refine NF_cpy ?_; omega)
+  | (exfalso; omega; done)
+  | (simp only [pure_bind])
+  | (with_reducible refine NF_throw_bind _ _ ?_ ; intro g h; cases h; done)
+  | (with_reducible refine NF_bind ?_ (fun a ha => ?_))
+  | (by_cases hbr : br = true <;> simp only [hbr, not_true_eq_false, not_false_eq_true, if_true, if_false])
+  | split)
+
+theorem ctype_ok {buf a : List Byte} {S L : Nat} (h : FieldOk buf S L) (hc : cpy buf S L = .ok a) :
+    a = [] ∨ (EolAt a a.length ∧ Gen.mimeContentType.length ≤ a.length) := by
+  obtain ⟨h1, h2, h3⟩ := h
+  obtain ⟨hl, _, rfl⟩ := cpy_len hc
+  right
+  refine ⟨⟨by omega, ?_⟩, by rw [hl]; exact h2⟩
+  rw [hl]
+  have : ((buf.drop S).take L)[L - 1]? = buf[S + L - 1]? := by
+    rw [List.getElem?_take, if_pos (by omega), List.getElem?_drop]
+    congr 1; omega
+  rw [this]; exact h3
+
+theorem qpHeader_nf (cfg : Cfg) (buf : List Byte) (br : Bool) (st : St) (hne : buf ≠ []) :
+    NF (qpHeader cfg buf br st) := by
+  have hlen : 0 < buf.length := List.length_pos_iff.mpr hne
+  obtain ⟨c0, hc0, hc0'⟩ := rd_ok (buf := buf) (i := 0) hlen
+  unfold qpHeader
+  refine NF_ok_bind c0 hc0 ?_
+  have hh0 : (if c0 = CR then (if buf[1]? = some LF then 2 else 1) else if c0 = LF then 1 else 0) ≤ buf.length := by
+    split
+    · split
+      · rename_i h1; have := (List.getElem?_eq_some_iff.mp h1).1; omega
+      · omega
+    · split <;> omega
+  generalize (if c0 = CR then (if buf[1]? = some LF then 2 else 1) else if c0 = LF then 1 else 0) = header0 at hh0 ⊢
+  simp only []
+  by_cases hz : header0 = 0
+  case' pos =>
+    simp only [hz, if_true]
+    obtain ⟨s, hs, hres⟩ := hdrScan_inv buf 0 {} ⟨Or.inl rfl, Or.inl rfl⟩ rfl
+    refine NF_ok_bind s hs ?_
+  case' neg =>
+    simp only [hz, if_false]
+    refine NF_pure_bind _ _ ?_
+    have hres : HRes buf { header := header0 } := ⟨Or.inl rfl, Or.inl rfl, hh0⟩
+    generalize ({ header := header0 } : HdrScan) = s at hres ⊢
+  all_goals
+    have hhd : (if s.header = 0 then buf.length else s.header) ≤ buf.length := by
+      split
+      · omega
+      · exact hres.hd
+    have hce := hres.ce
+    generalize (if s.header = 0 then buf.length else s.header) = header at hhd hce ⊢
+    split
+    · exact NF_throw_bind _ _ (by intro g h; cases h)
+    by_cases hct0 : s.ctL = 0
+    case' pos =>
+      simp only [hct0, if_true]
+      simp only [pure_bind]
+      generalize hg : ([] : List Byte) = ctype
+      have hcty : ctype = [] ∨ (EolAt ctype ctype.length ∧ Gen.mimeContentType.length ≤ ctype.length) := Or.inl hg.symm
+    case' neg =>
+      simp only [hct0, if_false]
+      have hfo : FieldOk buf s.ctS s.ctL := by rcases hres.ct with h | h; exact absurd h hct0; exact h
+      refine NF_bind (NF_cpy hfo.1) (fun ctype hcty0 => ?_)
+      have hcty := ctype_ok hfo hcty0
+    all_goals
+      split
+      · exact NF_throw_bind _ _ (by intro g h; cases h)
+      · refine NF_throw_bind _ _ ?_
+        intro g hg; subst hg
+        exact isMultipart_nf _ hcty g ‹_›
+      · try simp only [pure_bind]
+        rename_i r hr
+        split
+        · have hmp := isMultipart_mp _ _ _ hr
+          refine NF_bind (NF_cpy hmp) (fun bd hbd => ?_)
+          iterate 10 (all_goals (try nf_step))
+        · exact NF_throw_abort _ _
+        · iterate 10 (all_goals (try nf_step))
+
+/-! ### send_qp, send_data -/
+
+theorem sendPlain_ne {buf : List Byte} {st : St} {e : Stop} : sendPlain buf st ≠ .error e := by
+  obtain ⟨st', h, _⟩ := sendPlain_spec buf st
+  rw [h]; intro h'; cases h'
+
+theorem recodeQp_ne {buf : List Byte} {st : St} {e : Stop} : recodeQp buf st ≠ .error e := by
+  obtain ⟨st', h⟩ := recodeQp_ok buf st
+  rw [h]; intro h'; cases h'
+
+syntax "nf_close" : tactic
+macro_rules | `(tactic| nf_close) => `(tactic| (exfalso; assumption))
+macro_rules | `(tactic| nf_close) => `(tactic| exact absurd ‹sendPlain _ _ = _› sendPlain_ne)
+macro_rules | `(tactic| nf_close) => `(tactic| exact absurd ‹recodeQp _ _ = _› recodeQp_ne)
+macro_rules | `(tactic| nf_close) => `(tactic| (exfalso; apply_assumption; assumption))
+macro_rules | `(tactic| nf_close) => `(tactic| exact qpHeader_nf _ _ _ _ ‹_ ≠ []› _ ‹qpHeader _ _ _ _ = _›)
+
+/-- split a hypothesis `h : (nested matches and ifs) = .error (.fault f)` down to its leaves -/
+syntax "nf_hyp " ident : tactic
+macro_rules
+  | `(tactic| nf_hyp $h:ident) => `(tactic| first
+      | (cases $h:ident; done)
+      | contradiction
+      | (split at $h:ident <;> nf_hyp $h:ident)
+      | (simp only [Except.error.injEq] at $h:ident; subst $h:ident; first | contradiction | nf_close | (rename_i hq; nf_hyp hq))
+      | nf_close)
+
+theorem partLoop_nf (cfg : Cfg) (buf bd : List Byte) (hlen : 0 < buf.length)
+    (rec : (p : List Byte) → p.length < buf.length → St → R St)
+    (hrec : ∀ p hp st f, rec p hp st ≠ .error (.fault f))
+    (off : Nat) (hoff : 0 < off) (islast : Bool) (st : St) (f : Fault) :
+    partLoop cfg buf bd hlen rec off hoff islast st ≠ .error (.fault f) := by
+  fun_induction partLoop cfg buf bd hlen rec off hoff islast st
+  all_goals first | assumption | skip
+  case case1 =>
+    intro hh
+    simp +zetaDelta only at hh
+    nf_hyp hh
+  case case7 =>
+    intro hh
+    simp +zetaDelta only at hh
+    nf_hyp hh
+  case case2 =>
+    rename_i hx
+    intro hh; simp only [Except.error.injEq] at hh; subst hh
+    nf_hyp hx
+  all_goals (intro hh; first | (cases hh; done) | nf_hyp hh)
+
+theorem sendQp_nf' (cfg : Cfg) : ∀ (n : Nat) (buf : List Byte) (st : St) (f : Fault), buf.length ≤ n →
+    sendQp cfg buf st ≠ .error (.fault f) := by
+  intro n
+  induction n with
+  | zero =>
+    intro buf st f hn
+    unfold sendQp
+    simp [show buf.length = 0 by omega]
+  | succ n ih =>
+    intro buf st f hn
+    have hrec : ∀ (p : List Byte) (hp : p.length < buf.length) (st : St) (f : Fault),
+        (fun p (_ : p.length < buf.length) st => sendQp cfg p st) p hp st ≠ .error (.fault f) :=
+      fun p hp st f => ih p st f (by omega)
+    unfold sendQp
+    intro hh
+    split at hh
+    · cases hh
+    · rename_i hl0
+      have hne : buf ≠ [] := by intro h; subst h; simp at hl0
+      simp only at hh
+      split at hh
+      · nf_hyp hh
+      · nf_hyp hh
+      · split at hh
+        · nf_hyp hh
+        · split at hh
+          · nf_hyp hh
+          · split at hh
+            · exact partLoop_nf cfg buf _ _ _ hrec _ _ _ _ f hh
+            · exact partLoop_nf cfg buf _ _ _ hrec _ _ _ _ f hh
+
+theorem sendQp_nf (cfg : Cfg) (buf : List Byte) (st : St) (f : Fault) : sendQp cfg buf st ≠ .error (.fault f) :=
+  sendQp_nf' cfg _ buf st f (Nat.le_refl _)
+
+/-- **send_data() never faults**: for every message and every configuration nothing is read outside
+the message (or the part or header field a function was given) and nothing is written outside a
+staging buffer. -/
+theorem sendData_nf (cfg : Cfg) (m : List Byte) (f : Fault) : sendData cfg m ≠ .error (.fault f) := by
+  unfold sendData
+  intro hh
+  simp only at hh
+  split at hh
+  · rename_i e he
+    simp only [Except.error.injEq] at hh; subst hh
+    split at he
+    · exact sendQp_nf cfg m {} f he
+    · exact absurd he sendPlain_ne
+  · cases hh
+
 
 end QsmtpModel.QrData
